@@ -96,14 +96,14 @@ def sig_of(b, upto=None):
 
     def one(s):
         k = s["k"]
-        if k == "Features":
+        if k in ("Features", "ProceedThen"):
             f = s["f"]
             on = [x for x in ("legacy", "bind", "sm", "register") if f.get(x)]
             if f.get("b2", "none") != "none":
                 on.append("bind2" + ("+sm" if f["b2"] == "sm" else ""))
             if f.get("r2"):
                 on.append("resume2")
-            return "Features(tls=%s,mechs=%s,s2=%s%s)" % (f["tls"], f["mechs"], f["s2"], "".join("," + x for x in on))
+            return "%s(tls=%s,mechs=%s,s2=%s%s)" % (k, f["tls"], f["mechs"], f["s2"], "".join("," + x for x in on))
         extra = [f"{a}={s[a]}" for a in sorted(s) if a != "k"]
         return k + ("(" + ",".join(extra) + ")" if extra else "")
     c = b["cfg"]
